@@ -97,7 +97,7 @@ func TestVerifC07(t *testing.T) {
 		}
 	})
 
-	n := r.N(6000, 400000)
+	n := r.N(6000, 240000)
 	r.Cases("hist", n, func(i int, id string, rng *vk.Rand) {
 		cfg := vfGenCfg(rng, []string{"set", "set", "int", "int", "mutex", "bool"}, []string{CacheTypeRanked, CacheTypeLRU, CacheTypeNone}, 4)
 		g := newVFGen(rng.Fork(), cfg, c07Rows(cfg), c07Weights)
